@@ -40,10 +40,34 @@ class Tracked(object):
         return getattr(self._f, k)
 
 
+class _OsView(object):
+    """the os module as the device module sees it: inode numbers are renumbered 0, 1, 2 ... in order of first
+    appearance (one-to-one, so nothing the library may conclude changes), which puts the boundary value 0 - a
+    legitimate inode number - into every history"""
+
+    def __init__(self):
+        self._map = {}
+
+    def __getattr__(self, k):
+        return getattr(os, k)
+
+    def stat(self, path, *a, **k):
+        r = os.stat(path, *a, **k)
+        ino = self._map.setdefault(r.st_ino, len(self._map))
+
+        class R(object):
+            st_ino = ino
+
+            def __getattr__(self_, k_):
+                return getattr(r, k_)
+        return R()
+
+
 class World(object):
     def __init__(self):
         self.fs, _ = bindings.install(True, True)
         self.sd = mod("pyscsi.pyscsi.scsi_device")
+        self.sd.os = _OsView()
         self.dir = bindings.shm_dir("c15")
         self.path = os.path.join(self.dir, "sg0")
         self.files = []
@@ -80,6 +104,7 @@ class World(object):
         del self.files[:]
         del self.opens[:]
         self.fail_open = False
+        self.sd.os = _OsView()          # a fresh numbering per history: the first node is inode 0
         if self.present():
             os.unlink(self.path)
         self.new_node()
@@ -112,6 +137,7 @@ class World(object):
             del self.sd.open
         except Exception:
             pass
+        self.sd.os = os
         for t in self.files:
             if not t.closed:
                 t._f.close()
